@@ -24,6 +24,15 @@
  *   20..26 three adjacent two-word areas, every non-empty subset of them
  *          holding registers, the others entry-less
  *   33..38 (thorough) the same with two registers in the second / third area
+ *
+ * Ownership: which typed sets and block writes are accepted, and that a block
+ * write marks the overlapped registers, are sentences of C01 / C02.  Where the
+ * library disagrees with the reference there, this harness judges only what
+ * C05 says (refused => no word changed; accepted => the constrained registers
+ * still satisfy their constraints) and does not explore the successor.  Words
+ * that belong to no register are nobody's value: after a typed set, a bit
+ * operation and sanitise only register words are compared.  A table that
+ * register_init refuses ends as a trivial case (C04's sentence).
  */
 #include "mc.h"
 #include "regtab.h"
@@ -43,6 +52,8 @@ static bool g_sanitise_unspec; /* what sanitise does to this table is not fixed 
 static unsigned g_corrupt_areas; /* mask of the areas part 2 corrupts */
 static uint16_t g_init_flags;
 static int nwords; /* total words of all areas */
+static bool g_regword[RT_MAXW]; /* snapshot layout: the word belongs to a register */
+static int g_word_reg[RT_MAXW]; /* snapshot layout: the register the word belongs to, -1 none */
 
 static const char *
 acc(RegisterAccessCode c)
@@ -412,6 +423,35 @@ set_reg_words(RegisterAtom *words, int r, uint64_t bits)
     }
 }
 
+/* first word (snapshot layout) that belongs to a register and differs, or -1.
+ * "All others keep their value" and "change exactly the requested bits" are
+ * sentences about registers: words of an area that belong to no register are
+ * nobody's value. */
+static int
+regwords_differ(const RegisterAtom *a, const RegisterAtom *b, size_t total)
+{
+    for (size_t w = 0; w < total; ++w)
+        if (g_regword[w] && a[w] != b[w])
+            return (int)w;
+    return -1;
+}
+
+/* the constraint alone, evaluated on whatever pattern the register holds (an
+ * undecodable float pattern is compared as the IEEE value it is): the part of
+ * the invariant that is C05's own sentence when C01/C02 would already have
+ * refused the operation */
+static int
+constraint_violation(void)
+{
+    for (int r = 0; r < spec.nr; ++r) {
+        if (spec.r[r].ckind == K_NONE || spec.r[r].ckind == K_FAIL)
+            continue;
+        if (!ref_constraint(&spec.r[r], ref_from_bits(spec.r[r].type, reg_bits_now(r))))
+            return r;
+    }
+    return -1;
+}
+
 /* ---- operations -------------------------------------------------------------- */
 enum opk { O_SET, O_BITSET, O_BITCLR, O_BLOCK, O_SANITISE, O_FAULT };
 struct op {
@@ -549,6 +589,13 @@ do_op(const struct op *o, bool *ok)
     const size_t total = flat_snapshot(&tb, before);
     memcpy(expect, before, sizeof expect);
     const char *outcome = "?";
+    /* how the storage after the operation is judged:
+     *   CMP_FULL      every word equals the model's prediction (block write: "exactly those n words change")
+     *   CMP_REGWORDS  every word that belongs to a register equals the prediction
+     *   CMP_REFUSED   the library refused: no word of the storage changed
+     *   CMP_FOREIGN   the library accepted what only C01/C02 forbid: the storage is not predicted,
+     *                 the constraints must still hold, the successor is not explored */
+    enum { CMP_FULL, CMP_REGWORDS, CMP_REFUSED, CMP_FOREIGN } cmp = CMP_FULL;
     *ok = true;
     tb.cb_oob = 0;
     switch (o->k) {
@@ -561,19 +608,19 @@ do_op(const struct op *o, bool *ok)
         const bool accept = o->vtype == rs->type && ref_storable(rs->type, o->bits) && ref_constraint(rs, v.value);
         RegisterAccess a = register_set(&tb.t, (RegisterHandle)o->reg, v);
         mc_log("-> %s@%u", acc(a.code), a.address);
-        if (accept) {
+        /* which sets are accepted is C01's sentence.  Where the library
+         * disagrees with the reference, C05 judges its own sentences only:
+         * refused => nothing changed; accepted => the constraints still hold */
+        if (a.code != REG_ACCESS_SUCCESS) {
+            outcome = accept ? "set-refused-admissible" : "set-refused";
+            cmp = CMP_REFUSED;
+        } else if (accept) {
             set_reg_words(expect, o->reg, o->bits);
             outcome = "set-accepted";
-            if (a.code != REG_ACCESS_SUCCESS) {
-                mc_fail("C05/set-accepts", "admissible %s refused with %s", op_str(o), acc(a.code));
-                *ok = false;
-            }
+            cmp = CMP_REGWORDS;
         } else {
-            outcome = "set-refused";
-            if (a.code == REG_ACCESS_SUCCESS) {
-                mc_fail("C05/set-refuses", "inadmissible %s succeeded", op_str(o));
-                *ok = false;
-            }
+            outcome = "set-accepted-inadmissible";
+            cmp = CMP_FOREIGN;
         }
         break;
     }
@@ -594,12 +641,14 @@ do_op(const struct op *o, bool *ok)
         if (accept) {
             set_reg_words(expect, o->reg, nv);
             outcome = "bitop-accepted";
+            cmp = CMP_REGWORDS;
             if (a.code != REG_ACCESS_SUCCESS) {
                 mc_fail("C05/bitop-accepts", "admissible %s on %016llx refused with %s", op_str(o), (unsigned long long)cur, acc(a.code));
                 *ok = false;
             }
         } else {
             outcome = supported ? "bitop-refused-constraint" : "bitop-refused-operand";
+            cmp = CMP_REFUSED;
             if (a.code == REG_ACCESS_SUCCESS) {
                 mc_fail(supported ? "C05/bitop-refuses-constraint" : "C05/bitop-refuses-operand", "%s on %016llx succeeded", op_str(o), (unsigned long long)cur);
                 *ok = false;
@@ -638,7 +687,12 @@ do_op(const struct op *o, bool *ok)
         RegisterAccess a = register_block_write(&tb.t, o->addr, o->n, buf);
         mc_log("-> %s@%u (reference: unmapped=%ld readonly=%ld invalid=%ld range=%ld)", acc(a.code), a.address, v.unmapped, v.readonly, v.invalid, v.range);
         mc_log_hex("request", w, o->n * 2);
-        if (accept) {
+        /* which block writes are accepted, and that they mark the overlapped
+         * registers, are C02's sentences; see O_SET */
+        if (a.code != REG_ACCESS_SUCCESS) {
+            outcome = accept ? "block-refused-admissible" : "block-refused";
+            cmp = CMP_REFUSED;
+        } else if (accept) {
             size_t k = 0;
             for (int i = 0; i < spec.na; ++i) {
                 for (uint32_t x = 0; x < spec.a[i].size; ++x) {
@@ -648,21 +702,11 @@ do_op(const struct op *o, bool *ok)
                 }
                 k += spec.a[i].size;
             }
-            outcome = "block-accepted";
-            if (a.code != REG_ACCESS_SUCCESS) {
-                mc_fail("C05/block-accepts", "admissible %s refused with %s@%u", op_str(o), acc(a.code), a.address);
-                *ok = false;
-            } else if ((touched_mask(&tb) & v.overlapped) != v.overlapped) {
-                mc_fail("C05/block-touches", "%s: overlapped %x touched %x", op_str(o), v.overlapped, touched_mask(&tb));
-                *ok = false;
-            }
+            outcome = (touched_mask(&tb) & v.overlapped) == v.overlapped ? "block-accepted" : "block-accepted-marks-differ";
+            cmp = CMP_FULL;
         } else {
-            outcome = "block-refused";
-            if (a.code == REG_ACCESS_SUCCESS) {
-                mc_fail("C05/block-refuses", "inadmissible %s succeeded (reference: unmapped=%ld readonly=%ld invalid=%ld range=%ld)",
-                        op_str(o), v.unmapped, v.readonly, v.invalid, v.range);
-                *ok = false;
-            }
+            outcome = "block-accepted-inadmissible";
+            cmp = CMP_FOREIGN;
         }
         free(buf);
         break;
@@ -704,6 +748,7 @@ do_op(const struct op *o, bool *ok)
         RegisterAccess a = register_sanitise(&tb.t);
         mc_log("-> %s@%u", acc(a.code), a.address);
         outcome = "sanitise-clean";
+        cmp = CMP_REGWORDS;
         if (g_sanitise_unspec) {
             /* the statement's sanitise clause is about tables without always-fail
              * registers; whether the content of a write-only area is content
@@ -726,11 +771,24 @@ do_op(const struct op *o, bool *ok)
         mc_fail("C05/area-bounds", "%s: area callback asked for words outside its area", op_str(o));
         *ok = false;
     }
-    if (*ok && memcmp(after, expect, total * sizeof(RegisterAtom)) != 0) {
-        const bool refused = memcmp(expect, before, total * sizeof(RegisterAtom)) == 0 && o->k != O_SANITISE
-            && strstr(outcome, "refused") != NULL;
-        mc_fail(refused ? "C05/refused-changes-nothing"
-                : (o->k == O_BITSET || o->k == O_BITCLR) ? "C05/bitop-changes-exactly-the-bits"
+    if (*ok && cmp == CMP_FOREIGN) {
+        /* accepted although C01/C02 say refuse: C05's own sentence is that the
+         * constrained registers still satisfy their constraints.  The state is
+         * not one the model vouches for: not explored */
+        const int bad = constraint_violation();
+        if (bad >= 0)
+            mc_fail("C05/invariant", "after %s register %d holds %016llx which violates its constraint", op_str(o), bad, (unsigned long long)reg_bits_now(bad));
+        *ok = false;
+        return outcome;
+    }
+    if (*ok && cmp == CMP_REFUSED) {
+        if (memcmp(after, before, total * sizeof(RegisterAtom)) != 0) {
+            mc_fail("C05/refused-changes-nothing", "%s: storage changed although the operation was refused", op_str(o));
+            *ok = false;
+        }
+    } else if (*ok && (cmp == CMP_FULL ? memcmp(after, expect, total * sizeof(RegisterAtom)) != 0
+                                       : regwords_differ(after, expect, total) >= 0)) {
+        mc_fail((o->k == O_BITSET || o->k == O_BITCLR) ? "C05/bitop-changes-exactly-the-bits"
                 : o->k == O_SANITISE ? "C05/sanitise-keeps-valid" : "C05/accepted-stores-exactly",
                 "%s: storage differs from the model's prediction", op_str(o));
         *ok = false;
@@ -917,10 +975,12 @@ corruption(int ti, bool thorough)
                         RegisterAtom expect[RT_MAXW];
                         memcpy(expect, c.w, sizeof expect);
                         bool unwritable = false; /* an invalid register sits where sanitise cannot / need not write */
+                        bool was_sane[RT_MAXR];
                         for (int r = 0; r < spec.nr; ++r) {
                             const uint64_t bits = reg_bits_now(r);
                             const bool sane = ref_storable(spec.r[r].type, bits)
                                 && ref_constraint(&spec.r[r], ref_from_bits(spec.r[r].type, bits));
+                            was_sane[r] = sane;
                             if (!sane) {
                                 set_reg_words(expect, r, ref_bits(spec.r[r].type, spec.r[r].def));
                                 nreset++;
@@ -952,18 +1012,41 @@ corruption(int ti, bool thorough)
                         } else if (hit || unwritable) {
                             /* a reset could not be carried out (I/O error, no write
                              * callback) or the statement leaves open whether it is
-                             * (area flagged read-only): the statement then fixes one
-                             * thing only -- sanitise must not claim to have
-                             * re-established the invariant when it has not */
-                            if (a.code == REG_ACCESS_SUCCESS && invariant_violation() >= 0) {
-                                mc_fail("C05/sanitise-success-means-invariant", "sanitise returned SUCCESS but register %d holds %016llx, which violates its constraint",
-                                        invariant_violation(), (unsigned long long)reg_bits_now(invariant_violation()));
+                             * (area flagged read-only).  The statement fixes no return
+                             * value for an input nobody can repair, and does not say
+                             * whether sanitise goes on behind such a register.  What
+                             * remains: sanitise must not report success while a register
+                             * it could have reset still breaks the invariant; and,
+                             * when no callback failed, registers that were valid keep
+                             * their value */
+                            int bad = -1;
+                            for (int r = 0; r < spec.nr && bad < 0; ++r) {
+                                if (spec.r[r].ckind == K_NONE || spec.r[r].ckind == K_FAIL)
+                                    continue;
+                                if (!area_resettable(&spec.a[flat_area_of(&spec, spec.r[r].addr)]))
+                                    continue;
+                                const uint64_t bits = reg_bits_now(r);
+                                if (!ref_storable(spec.r[r].type, bits) || !ref_constraint(&spec.r[r], ref_from_bits(spec.r[r].type, bits)))
+                                    bad = r;
+                            }
+                            if (a.code == REG_ACCESS_SUCCESS && bad >= 0) {
+                                mc_fail("C05/sanitise-success-means-invariant", "sanitise returned SUCCESS but register %d (in an area it can write) holds %016llx, which violates its constraint",
+                                        bad, (unsigned long long)reg_bits_now(bad));
                                 ok = false;
+                            }
+                            for (int r = 0; r < spec.nr && ok && !hit; ++r) {
+                                if (!was_sane[r])
+                                    continue;
+                                for (int w = 0; w < wtotal && ok; ++w)
+                                    if (g_word_reg[w] == r && after[w] != c.w[w]) {
+                                        mc_fail("C05/sanitise-keeps-valid", "register %d held a valid value before sanitise and a different one after", r);
+                                        ok = false;
+                                    }
                             }
                         } else if (a.code != REG_ACCESS_SUCCESS) {
                             mc_fail("C05/sanitise-succeeds", "sanitise returned %s@%u", acc(a.code), a.address);
                             ok = false;
-                        } else if (memcmp(after, expect, total * sizeof(RegisterAtom)) != 0) {
+                        } else if (regwords_differ(after, expect, total) >= 0) {
                             mc_fail("C05/sanitise-resets-exactly-the-invalid", "storage after sanitise differs from 'invalid registers at default, all others untouched'");
                             ok = false;
                         } else if (touched_mask(&tb) != 0) {
@@ -1022,10 +1105,13 @@ setup_table(int ti)
         nwords += (int)spec.a[i].size;
     if (ri.code != REG_INIT_SUCCESS)
         return false;
-    /* callback-backed areas that initialisation does not fill stand for a
-     * device that holds valid content: zero where zero is valid, else the default */
+    /* areas that initialisation does not fill (defaults skipped, or no write
+     * callback) stand for a device / a memory that holds valid content: zero
+     * where zero is valid, else the default.  Installed out of band for
+     * memory-backed areas as well: what register_init leaves in an area whose
+     * defaults it skips is not part of the statement */
     for (int ai = 0; ai < spec.na; ++ai)
-        if (spec.a[ai].cb && (spec.a[ai].nowrite || (spec.a[ai].flags & REG_AF_SKIP_DEFAULTS))) {
+        if (spec.a[ai].nowrite || (spec.a[ai].flags & REG_AF_SKIP_DEFAULTS)) {
             memset(tb.store[ai], 0, spec.a[ai].size * sizeof(RegisterAtom));
             for (int r = 0; r < spec.nr; ++r) {
                 if (flat_area_of(&spec, spec.r[r].addr) != ai)
@@ -1037,17 +1123,23 @@ setup_table(int ti)
                 }
             }
         }
-    /* words outside registers of callback-backed areas start from zero */
-    for (int ai = 0; ai < spec.na; ++ai)
-        if (spec.a[ai].cb)
-            for (uint32_t w = 0; w < spec.a[ai].size; ++w) {
-                bool inreg = false;
+    /* words outside registers start from zero (whether initialisation clears
+     * them is not part of the statement either) */
+    {
+        int k = 0;
+        for (int ai = 0; ai < spec.na; ++ai)
+            for (uint32_t w = 0; w < spec.a[ai].size; ++w, ++k) {
+                g_regword[k] = false;
+                g_word_reg[k] = -1;
                 for (int r = 0; r < spec.nr; ++r)
-                    if (spec.a[ai].base + w >= spec.r[r].addr && spec.a[ai].base + w < spec.r[r].addr + ref_words(spec.r[r].type))
-                        inreg = true;
-                if (!inreg)
+                    if (spec.a[ai].base + w >= spec.r[r].addr && spec.a[ai].base + w < spec.r[r].addr + ref_words(spec.r[r].type)) {
+                        g_regword[k] = true;
+                        g_word_reg[k] = r;
+                    }
+                if (!g_regword[k])
                     tb.store[ai][w] = 0;
             }
+    }
     memset(g_init_image, 0, sizeof g_init_image);
     flat_snapshot(&tb, g_init_image);
     g_init_flags = tb.t.flags;
@@ -1063,8 +1155,9 @@ run_table(int ti, int part)
     const bool up = setup_table(ti);
     mc_case("T%d %s initialisation", ti + 1, tspec_str(&spec));
     if (!up) {
-        mc_fail("C05/setup-init", "register_init of a well-formed table failed");
-        mc_end(false, "init-failed");
+        /* whether initialisation accepts a table is C04's sentence; the
+         * statement here starts from a successfully initialised table */
+        mc_end(false, "init-refused");
         tab_free(&tb);
         return;
     }
@@ -1114,7 +1207,7 @@ run_corruption(int ti, bool thorough)
         return;
     if (!setup_table(ti)) {
         tab_free(&tb);
-        return; /* reported by part 1 */
+        return; /* trivial case of part 1 */
     }
     if (!g_has_fail)
         corruption(ti, thorough);
